@@ -371,6 +371,18 @@ func runDrain(in term.T) term.T {
 		switch name {
 		case "TEff":
 			w.eff(a[0])
+		case "TLeave":
+			u := key.TargetID(term.Int(a[0]))
+			keep := func(l []key.TargetID) []key.TargetID {
+				out := []key.TargetID{}
+				for _, x := range l {
+					if x != u {
+						out = append(out, x)
+					}
+				}
+				return out
+			}
+			sim.VerifSetSides(keep(sim.Characters()), keep(sim.Enemies()))
 		case "TDrain":
 			stopped, err := sim.VerifExecuteQueue(info.ActionEnd)
 			if err != nil {
@@ -440,6 +452,9 @@ func genDrain(r *term.Rng, idx int) term.T {
 	for len(ops) < nops {
 		if r.Chance(1, 7) {
 			ops = append(ops, term.C("TDrain"))
+		} else if r.Chance(1, 10) {
+			// a unit leaves the field without dying (turn-end death check of a unit in limbo)
+			ops = append(ops, term.C("TLeave", term.I(term.Pick(r, []int64{1, 2, 3, 4, 3, 4, 9}))))
 		} else {
 			ops = append(ops, term.C("TEff", genEff(r, 0, &budget)))
 		}
